@@ -201,7 +201,7 @@ class KroneckerFactoredLattice(keras.layers.Layer):
     if isinstance(input_shape, list):
       dims = len(input_shape)
     else:
-      dims = input_shape.as_list()[-1]
+      dims = tf.TensorShape(input_shape).as_list()[-1]
 
     if self.output_min is not None or self.output_max is not None:
       scale_constraints = ScaleConstraints(
